@@ -36,6 +36,9 @@ type dynUpdater struct {
 	socket  socket.HAProxySocket
 	cmdCnt  int
 	metrics types.Metrics
+	// reloadFailed means that the last reload failed, so the running
+	// haproxy does not reflect the committed state yet
+	reloadFailed bool
 }
 
 type hostPair struct {
@@ -59,11 +62,19 @@ func (i *instance) newDynUpdater() *dynUpdater {
 		config:  i.config.(*config),
 		socket:  i.conns.DynUpdate(),
 		metrics: i.metrics,
+		//
+		reloadFailed: i.failedSince != nil,
 	}
 }
 
 func (d *dynUpdater) update() bool {
 	updated := d.config.hasCommittedData() && d.checkConfigChange()
+	if updated && d.reloadFailed {
+		// the changed sets were already committed when the reload failed,
+		// an update without changes is the retry of that reload
+		d.logger.InfoV(2, "need to reload due to a former failed reload")
+		updated = false
+	}
 	if !updated {
 		// Need to reload, time to adjust empty slots according to config
 		d.alignSlots()
